@@ -161,7 +161,8 @@ class C18(object):
                          'embed.with_zone_queries_during_construction',
                          'embed.with_diagnostic_dump_after_every_country',
                          'embed.with_one_equation_object_given_to_households_of_several_economies',
-                         'rename.compared.federation_with_run_time_built_currency_strings')
+                         'rename.compared.federation_with_run_time_built_currency_strings',
+                         'embed.with_one_economys_government_coded_like_the_others_household')
 
     def n_cases(self, tier):
         return 24 if tier == 'quick' else 600
@@ -285,8 +286,16 @@ class C18(object):
         if extras['query_zone']:
             rec.count('embed.with_zone_queries_during_construction')
         rule = bool(case.get('cap_next_to_retained_profits'))
+        swap_codes = None
         if rule:
             extras['extra_rule'] = 'shared'
+            # the second economy calls its government (treasury) 'HH' and its households 'WRK': short codes are only unique within
+            # a country, so the first economy's household and the second economy's government share one
+            swap_codes = {}
+            for c in spec['zones'][1]['countries']:
+                swap_codes[c['key']] = {'GOV': 'HH', 'TRE': 'HH', 'HH': 'WRK'}
+            extras['codes'] = swap_codes
+            rec.count('embed.with_one_economys_government_coded_like_the_others_household')
         joint = M.build(spec, unused_ext=case['unused_ext'], region_default_currency=rdc, fresh_currency_strings=True, **extras)
         if rule and getattr(joint, 'extra_rule_holders', 0) >= 2:
             rec.count('embed.with_one_equation_object_given_to_households_of_several_economies')
@@ -295,7 +304,7 @@ class C18(object):
         for z, keys in zip(spec['zones'], zone_keys):
             sub = {'maxtime': spec['maxtime'], 'ext': False, 'zones': [z], 'imports': [],
                    'gifts': [g for g in spec['gifts'] if g['src'][0] in keys]}
-            alone.append(M.build(sub, region_default_currency=rdc, **({'extra_rule': 'own'} if rule else {})))
+            alone.append(M.build(sub, region_default_currency=rdc, **({'extra_rule': 'own', 'codes': swap_codes} if rule else {})))
         if any(a.error is not None for a in alone):
             return {'verdict': 'notjudged', 'shape': shape + '|alone_failed'}
         if joint.error is not None:
